@@ -474,7 +474,95 @@ func genC07(t *rapid.T) c07Case {
 	return c
 }
 
-func init() { vRegister("C07", "c07.random", checkC07) }
+// ---------------------------------------------------------------------------
+// stats day distances across century and leap-year boundaries (R8, enumerated)
+
+// vDaysFromCivil: day number (0 = 2021-01-01) of a proleptic Gregorian date, by integer arithmetic.
+func vDaysFromCivil(y, m, d int) int {
+	if m <= 2 {
+		y--
+	}
+	era := y / 400
+	if y < 0 {
+		era = (y - 399) / 400
+	}
+	yoe := y - era*400
+	mp := (m + 9) % 12
+	doy := (153*mp+2)/5 + d - 1
+	doe := yoe*365 + yoe/4 - yoe/100 + doy
+	return era*146097 + doe - 719468 - 18628 // 18628 = days from 1970-01-01 to 2021-01-01
+}
+
+var c07StatsDates = [][3]int{{1899, 12, 31}, {1900, 1, 1}, {1900, 2, 28}, {1900, 3, 1}, {1900, 12, 31}, {1901, 1, 1}, {1999, 12, 31}, {2000, 2, 29},
+	{2000, 3, 1}, {2020, 2, 29}, {2020, 12, 31}, {2021, 1, 1}, {2021, 6, 15}, {2099, 12, 31}, {2100, 2, 28}, {2100, 3, 1}, {2100, 12, 31}, {2101, 1, 1}, {2104, 2, 29}}
+
+type c07StatsCase struct {
+	First [3]int `json:"first"`
+	Last  [3]int `json:"last"`
+	Today [3]int `json:"today"`
+}
+
+func checkC07Stats(c c07StatsCase, ctx *vCtx) *vFailure {
+	f, l, t := vDaysFromCivil(c.First[0], c.First[1], c.First[2]), vDaysFromCivil(c.Last[0], c.Last[1], c.Last[2]), vDaysFromCivil(c.Today[0], c.Today[1], c.Today[2])
+	for _, pr := range [][2]interface{}{{f, c.First}, {l, c.Last}, {t, c.Today}} {
+		y, m, d := vCivil(pr[0].(int))
+		if [3]int{y, m, d} != pr[1].([3]int) {
+			vFault("date arithmetic of the harness disagrees with itself on %v", pr[1])
+		}
+	}
+	fm := func(d [3]int) string { return fmt.Sprintf("%04d/%02d/%02d", d[0], d[1], d[2]) }
+	lp := vWriteFile("c07s-log.yaml", fmt.Sprintf("%s:\n  a: 1\n%s:\n  b: 2\n", fm(c.First), fm(c.Last)))
+	bp := vWriteFile("c07s-book.yaml", "a:\n  x: 1\n")
+	r := vRunApp(vInvocation{Args: []string{"--today", fm(c.Today), "-d", bp, "-l", lp, "stats"}})
+	ctx.Run(1)
+	if r.Failed {
+		return vFailf("stats failed: %s", r)
+	}
+	st := vReadStats(r.Stdout)
+	ctx.NonTrivial(true)
+	if st.First != fm(c.First) || st.Last != fm(c.Last) || st.Today != fm(c.Today) {
+		return vFailf("stats shows today/first/last = %s / %s / %s, expected %s / %s / %s", st.Today, st.First, st.Last, fm(c.Today), fm(c.First), fm(c.Last))
+	}
+	if st.FirstAgo != fmt.Sprint(t-f) || st.LastAgo != fmt.Sprint(t-l) {
+		return vFailf("stats with --today %s: first record %s is %s days ago (expected %d), last record %s is %s days ago (expected %d)", fm(c.Today), fm(c.First), st.FirstAgo, t-f, fm(c.Last), st.LastAgo, t-l)
+	}
+	return nil
+}
+
+func c07StatsSpace() []c07StatsCase {
+	var out []c07StatsCase
+	ds := c07StatsDates
+	for i := range ds {
+		for j := range ds {
+			for k := range ds {
+				if (i+j+k)%3 != 0 && !vThorough() {
+					continue
+				}
+				// time.Duration holds about 292 years
+				if a, b := vDaysFromCivil(ds[i][0], ds[i][1], ds[i][2]), vDaysFromCivil(ds[k][0], ds[k][1], ds[k][2]); a-b > 100000 || b-a > 100000 {
+					continue
+				}
+				if a, b := vDaysFromCivil(ds[j][0], ds[j][1], ds[j][2]), vDaysFromCivil(ds[k][0], ds[k][1], ds[k][2]); a-b > 100000 || b-a > 100000 {
+					continue
+				}
+				out = append(out, c07StatsCase{First: ds[i], Last: ds[j], Today: ds[k]})
+			}
+		}
+	}
+	return out
+}
+
+func TestVerifC07Stats(t *testing.T) {
+	space := c07StatsSpace()
+	vEnum(t, "C07", "c07.stats",
+		"stats day distances: first record, last record and --today each from 19 dates around century ends (1900, 2000, 2100), leap days and year ends, all combinations within 100000 days of each other (quick: a third); expected distances by integer calendar arithmetic",
+		fmt.Sprintf("%d (first, last, today) triples", len(space)), len(space), func(i int) c07StatsCase { return space[i] }, checkC07Stats)
+}
+
+func init() {
+	vRegister("C07", "c07.random", checkC07)
+	vRegister("C07", "c07.stats", checkC07Stats)
+}
 
 func TestVerifC07Random(t *testing.T) {
 	vRapid(t, "C07", "c07.random",
